@@ -7,6 +7,7 @@ import (
 	"math/rand"
 	"net"
 	"net/url"
+	"strconv"
 	"strings"
 	"time"
 
@@ -300,7 +301,50 @@ var c04Zoo = univ.Zoo()
 // c04Relations checks the pairwise relations of C04 for one selector /
 // literal on a native Go datum (no reference model involved).
 func c04Native(c *mon.Ctx, datum interface{}, sel string, lit string, label string) {
-	q := (&xgen.Renderer{Plain: true}).Quote(lit)
+	c04NativeQ(c, datum, sel, (&xgen.Renderer{Plain: true}).Quote(lit), label)
+}
+
+// c04Lookalikes: a history. Expressions that differ from the ones under test
+// only in layout INSIDE a literal (runs of blanks collapsed / a tab for a
+// blank / surrounding blanks trimmed) are created first, for one operator of
+// each pair only; then the pairs are checked on a datum that tells the
+// literals apart. Anything remembered per normalised text breaks the
+// complement for the operator whose look-alike exists.
+func c04Lookalikes(c *mon.Ctx, r *rand.Rand) {
+	lits := []string{"a  b", "a\tb", "a \n b", "   ", " x", "x ", "a   b  c", "tab\t\tx", "a\u00a0 b"}
+	s := lits[r.Intn(len(lits))]
+	twin := strings.Join(strings.Fields(s), " ")
+	if r.Intn(3) == 0 {
+		twin = strings.ReplaceAll(strings.ReplaceAll(s, "\t", " "), "\n", " ")
+	}
+	if twin == s {
+		twin = s + " "
+	}
+	quote := func(x string, style int) string {
+		if style == 0 {
+			return "`" + x + "`"
+		}
+		return strconv.Quote(x)
+	}
+	style := r.Intn(2)
+	// the look-alikes exist for the negative operators only (or, every other time, the positive ones)
+	pre := []string{"x != %s", "%s not in l", "l not contains %s", "x not matches %s"}
+	if r.Intn(2) == 0 {
+		pre = []string{"x == %s", "%s in l", "l contains %s", "x matches %s"}
+	}
+	for _, f := range pre {
+		for _, st := range []int{0, 1} {
+			createEval(fmt.Sprintf(f, quote(twin, st)))
+			createEval(fmt.Sprintf(f, quote(" "+twin, st)))
+		}
+	}
+	datum := map[string]interface{}{"x": s, "l": []interface{}{s, "q"}}
+	c04NativeQ(c, datum, "x", quote(s, style), "lookalike-history")
+	c04NativeQ(c, datum, "l", quote(s, style), "lookalike-history-list")
+	c.Count("lookalike_histories")
+}
+
+func c04NativeQ(c *mon.Ctx, datum interface{}, sel string, q string, label string) {
 	forms := map[string]string{
 		"eq": sel + " == " + q, "ne": sel + " != " + q, "not-eq": "not (" + sel + " == " + q + ")", "not-ne": "not (" + sel + " != " + q + ")",
 		"in": q + " in " + sel, "notin": q + " not in " + sel, "contains": sel + " contains " + q, "notcontains": sel + " not contains " + q, "not-in": "not (" + q + " in " + sel + ")",
@@ -350,14 +394,53 @@ func c04NativeData() map[string]interface{} {
 	}
 }
 
+// c04Depths: the clause under test sits at the END of a flat chain of d
+// operands (d around powers of two up to 2^16): where a clause stands must
+// not decide whether `x != v` and `not (x == v)` (etc.) agree.
+var c04Depths = []int{255, 256, 257, 1023, 1024, 1025, 4095, 4096, 4097, 65534, 65535, 65536, 65537}
+
+func c04AtDepth(c *mon.Ctx, d int) {
+	prefix := strings.Repeat("a == 1 and ", d-1)
+	datum := map[string]interface{}{"a": 1, "x": "v", "l": []interface{}{"v"}, "e": []interface{}{}}
+	pairs := [][2]string{{`x != w`, `not (x == w)`}, {`x == v`, `not (x != v)`}, {`w not in l`, `not (l contains w)`}, {`v in l`, `not (v not in l)`}, {`x not matches "^w"`, `not (x matches "^w")`}, {`e is empty`, `not (e is not empty)`}, {`l is not empty`, `not (l is empty)`}}
+	if d > 60000 {
+		pairs = [][2]string{pairs[0], pairs[2], pairs[5]} // seconds per creation at this size
+	}
+	for _, p := range pairs {
+		var out [2]string
+		for i, clause := range p {
+			c.Risk(fmt.Sprintf("clause at depth %d", d))
+			ev, err, pan, _ := createEval(prefix + clause)
+			c.Evals(1)
+			if pan != "" || err != nil {
+				out[i] = "rejected: " + clip(fmt.Sprint(err)+pan, 120)
+				continue
+			}
+			out[i] = evaluate(ev, datum).Class3()
+		}
+		if out[0] != out[1] || out[0] != "T" {
+			c.Violation(fmt.Sprintf("C04 at-depth %s vs %s", clip(out[0], 12), clip(out[1], 12)), "a negated operator and `not (...)` around its counterpart differ when the clause ends a long flat chain",
+				map[string]any{"operands_before_the_clause": d - 1, "negated_operator_form": p[0], "not_form": p[1], "outcome_negated_operator": out[0], "outcome_not_form": out[1]})
+			return
+		}
+	}
+	c.Count("clause_at_depth_cases")
+}
+
 func c04Run(c *mon.Ctx, idx int) {
 	r := c.RNG(idx)
+	if idx < len(c04Depths) {
+		c04AtDepth(c, c04Depths[idx])
+	}
 	if idx%40 == 0 {
 		// values of types with methods (TextMarshaler, Stringer, error, ...)
 		d := c04NativeData()
 		keys := []string{"ip", "ip6", "t", "pt", "big", "hw", "dur", "url", "raw", "rat", "mask", "err", "ips", "ts", "long", "long2", "longb", "ch", "nilch", "long", "long2"}
 		k := keys[r.Intn(len(keys))]
 		c04Native(c, d, k, []string{`^10\.`, ".", "10.0.0.1", "5", "a", "2024", "", "1000000000", "^$"}[r.Intn(9)], k)
+	}
+	if idx%16 == 9 {
+		c04Lookalikes(c, r)
 	}
 	if idx%16 == 7 {
 		// float32 values next to a midpoint, literal a hair above / below it
@@ -479,8 +562,9 @@ func init() {
 		Assumptions: []string{"outcomes compared as classes true / false / error"},
 		NumCases:    func(tier string) int { return tierN(tier, 6000, 300000) },
 		Run:         c04Run,
+		Heavy:       func(tier string, idx int) bool { return idx < len(c04Depths) && c04Depths[idx] > 60000 },
 		Required: func(tier string) []string {
-			l := []string{"contains_pairs", "zoo_cases", "native_relation_sets", "float32_midpoint_cases"}
+			l := []string{"contains_pairs", "zoo_cases", "native_relation_sets", "float32_midpoint_cases", "lookalike_histories", "clause_at_depth_cases"}
 			for _, op := range []string{"==", "in", "is empty", "matches"} {
 				l = append(l, "pair:"+op+"/T", "pair:"+op+"/F", "pair:"+op+"/E", "pair-absent:"+op)
 			}
